@@ -971,7 +971,7 @@ class VConnection(BaseNetQASMConnection):
     """The real SDK connection; every message goes as BYTES through the real
     deserialiser into the real controller and executor."""
 
-    def __init__(self, app_name="alice", ctrl: Optional[VController] = None, nv=False, node_ids=None, successor=False, **kwargs):
+    def __init__(self, app_name="alice", ctrl: Optional[VController] = None, nv=False, node_ids=None, successor=False, share_stack=False, **kwargs):
         if not (successor and ctrl is not None):       # (a successor: the next connection on the same controller, same process)
             SharedMemoryManager.reset_memories()
             BaseNetQASMConnection._app_ids.clear()
@@ -979,9 +979,14 @@ class VConnection(BaseNetQASMConnection):
         DebugConnection.node_ids = dict(node_ids) if node_ids else {"verif": 0, "bob": 1, "charlie": 2, "alice": 0}
         self.ctrl = ctrl or VController(name="verif", flavour=NVFlavour() if nv else VanillaFlavour())
         self.ex: VExecutor = self.ctrl._executor  # type: ignore
-        self.stack = RecordingStack()
-        self.ctrl.network_stack = self.stack
+        if share_stack and isinstance(getattr(self.ctrl, "network_stack", None), RecordingStack):
+            self.stack = self.ctrl.network_stack        # (a second application on the same node: one network stack)
+        else:
+            self.stack = RecordingStack()
+            self.ctrl.network_stack = self.stack
         self.link: Optional[AutoLink] = None
+        self.defer = False                   # keep the serialised messages instead of running them (a driver interleaves them)
+        self.deferred: List[bytes] = []
         self.sent: List[bytes] = []
         self.subroutines: List[Any] = []
         self._msg_id = 0
@@ -993,6 +998,9 @@ class VConnection(BaseNetQASMConnection):
 
     def _commit_serialized_message(self, raw_msg, block=True, callback=None):
         self.sent.append(raw_msg)
+        if self.defer:
+            self.deferred.append(raw_msg)
+            return
         msg = _M.deserialize_host_msg(raw_msg)
         self._msg_id += 1
         self.ex.exec_count, self.ex.exec_limit = 0, 100000
